@@ -89,6 +89,11 @@ def verify_keys(report, keys, standin=None, procs=8):
     for o in E_.contract_frame_obligations(keys):
         report.add(o)
     assumed = sorted({'%s: %s (%s)' % (k, a, why) for k in keys if k in REG for a, why in REG[k].frame_assumed.items()})
+    loop_assumed = sorted({'%s loop %s: %s' % (k, n, cl) for k in keys if k in REG for n, sp in REG[k].loops.items()
+                           for cl in sp.get('assume_in_body', [])})
+    if loop_assumed:
+        report.extra['loop_assumptions'] = loop_assumed
+        report.assume('assumed at the start of a loop iteration (environment facts, not proved): ' + '; '.join(c[:200] for c in loop_assumed))
     if assumed:
         report.extra['frame_assumptions'] = assumed
         report.assume('frame assumptions (writes not counted by the frame check): ' + '; '.join(assumed))
